@@ -128,6 +128,16 @@ func init() {
 			fr.i.world.yieldOnRead = a[1].(bool)
 			return nil
 		},
+		// QuiesceTimers(n): like Quiesce, but at most n timers fire while waiting
+		// (bounded liveness: a run that keeps arming timers without finishing
+		// comes back instead of running into the step limit)
+		vrt + "QuiesceTimers": func(fr *frame, a []value) value {
+			w := fr.i.world
+			w.fireBudget, w.fireBudgetOn = a[1].(int), true
+			fr.i.quiesceAll()
+			w.fireBudgetOn = false
+			return nil
+		},
 		// Served(addr): the handler of the server listening on addr (engine only)
 		vrt + "Served": func(fr *frame, a []value) value {
 			addr, _ := a[1].(string)
